@@ -4,3 +4,4 @@ package props
 
 var hookBechPolymod func([]int) int
 var hookBechHrpExpand func(string) []int
+var hookBechVerify func(string, []byte) bool
